@@ -41,13 +41,33 @@ def survey_of(c, lev, sigma_act="apriori", m0=M0):
             "points": pts, "clusters": clusters}
 
 
+def _chol_solve(C, v):
+    d = len(C)
+    L = [[0.0] * d for _ in range(d)]
+    for i in range(d):
+        for j in range(i + 1):
+            s = C[i][j] - sum(L[i][k] * L[j][k] for k in range(j))
+            L[i][j] = math.sqrt(s) if i == j else s / L[j][j]
+    t = [0.0] * d
+    for i in range(d):
+        t[i] = (v[i] - sum(L[i][k] * t[k] for k in range(i))) / L[i][i]
+    y = [0.0] * d
+    for i in range(d - 1, -1, -1):
+        y[i] = (t[i] - sum(L[k][i] * y[k] for k in range(i + 1, d))) / L[i][i]
+    return y
+
+
 def applyP(c, v):
+    """P v with P = blockdiag(adj(C)/det C); wide band blocks (det = 0: no adjugate from TLC) through a dense Cholesky solve"""
     y = [0.0] * len(v)
     o = 0
     for b in c["blocks"]:
         d = b["dim"]
-        for i in range(d):
-            y[o + i] = sum(b["W"][i][j] * v[o + j] for j in range(d)) / b["det"]
+        if b["det"] == 0:
+            y[o:o + d] = _chol_solve(b["C"], v[o:o + d])
+        else:
+            for i in range(d):
+                y[o + i] = sum(b["W"][i][j] * v[o + j] for j in range(d)) / b["det"]
         o += d
     return y
 
